@@ -17,6 +17,26 @@ CHECKS = {
         design_ref="DESIGN.md 6.9",
         note="Trusted: TLC, the TLA+ value parser, the coordinate map of the harness. Bounds: M=6/depth 4 (quick), M=8/depth 5 (thorough).",
     ),
+    "C14": dict(
+        engine="tlc-small",
+        category="model_checking",
+        technique="TLA+ spec Checksum.tla (definition vs chunk-fed accumulator) model-checked by TLC; every chunking replayed through the real checksum(); recorded results validated by TLC (ChecksumTrace.tla)",
+        text="TLC proves, for every length <= N and every chunking into reads of 1..K bytes, that the carried-remainder accumulator equals the definition Sum; the (length, position, chunk) "
+             "graph it prints is walked on the real FileChecksum::checksum behind a scripted Read+Seek (every composition, pattern and seeded random content, displaced cursors, lengths "
+             "straddling 8 KiB); every distinct (content, result) pair recorded from the code is judged by TLC against Sum. Null must be 0.",
+        design_ref="DESIGN.md 6.14",
+        note="Trusted: TLC's evaluation of Sum (two 16-bit lanes), the scripted reader. Contents beyond the enumerated lengths are sampled (seeded), not exhausted.",
+    ),
+    "C16": dict(
+        engine="tlc-small",
+        category="model_checking",
+        technique="TLA+ spec Transport.tla (reused receive buffer with tagged cells) model-checked by TLC; every behaviour replayed over a real UdpTransport on loopback",
+        text="TLC checks NoStaleBytes/TruncatedRejected/CompleteAccepted for the decode-own-bytes design over the real encoded lengths of a corpus of every PDU kind (CRC on/off) and refutes "
+             "them for the decode-whole-buffer design (non-vacuity); every behaviour (complete datagram, then every truncation of every datagram) is sent over 127.0.0.1 to a real "
+             "UdpTransport and the outcome of receive() compared with the model's.",
+        design_ref="DESIGN.md 6.16",
+        note="Trusted: loopback UDP ordering; corpus of 20 datagrams; depth 2 (quick) / 3 on a sub-corpus (thorough).",
+    ),
 }
 
 NOT_YET = {}
